@@ -25,10 +25,22 @@ use crate::T;
 // unwrap them once the last possible child has been parsed. Nodes are then
 // created in the processing stage of this parsing rule.
 pub(crate) fn ty(p: &mut Parser) {
+    // Ignored tokens before the type belong to the tree too.
+    p.skip_ignored();
     match parse(p) {
         Ok(_) => (),
-        Err(Some(token)) => p.err_at_token(&token, "expected a type"),
-        Err(None) => p.err("expected a type"),
+        Err(token) => {
+            // No type node was started. The tree still needs a root node: use an empty named type
+            // that holds the offending token, so the text stays in the tree.
+            let _guard = p.start_node(SyntaxKind::NAMED_TYPE);
+            match token {
+                Some(token) => {
+                    p.err_at_token(&token, "expected a type");
+                    p.push_token(SyntaxKind::ERROR, token);
+                }
+                None => p.err("expected a type"),
+            }
+        }
     }
 }
 
